@@ -94,18 +94,13 @@ theorem not_py_and_pyo (n : Name) (h1 : endsWith dotPy n = true) (h2 : endsWith 
   rw [a] at b
   cases b
 
-theorem isInitModule_initPrefix (n : Name) (h : isInitModule n = true) : startsWith initPrefix n = true := by
-  unfold isInitModule startsWith at *
-  rw [List.isPrefixOf_iff_prefix] at *
-  exact List.IsPrefix.trans (List.prefix_append _ _) h
-
 /-- whatever the model imports is a revision file by the documented rules -/
 theorem accepts_isRevFile (fs : FS) (cfg : Cfg) (n : Nat) (h : accepts fs cfg n = true) :
     isRevFile fs cfg n = true := by
   unfold accepts at h
   unfold isRevFile
   unfold matchRevFile at h
-  cases hl : lookaheadRejects cfg.initDot (fs.node n).name with
+  cases hl : lookaheadRejects (fs.node n).name with
   | true => simp [hl] at h
   | false =>
     have hl' := hl
@@ -115,10 +110,7 @@ theorem accepts_isRevFile (fs : FS) (cfg : Cfg) (n : Nat) (h : accepts fs cfg n 
     have hinit' : isInitModule (fs.node n).name = false := by
       cases hi : isInitModule (fs.node n).name with
       | false => rfl
-      | true =>
-        cases hd : cfg.initDot with
-        | false => rw [hd] at hinit; simp only [Bool.false_eq_true, if_false] at hinit; rw [isInitModule_initPrefix _ hi] at hinit; cases hinit
-        | true => rw [hd] at hinit; simp only [if_true] at hinit; unfold isInitModule at hi; rw [hi] at hinit; cases hinit
+      | true => unfold isInitModule at hi; rw [hi] at hinit; cases hinit
     simp only [isLock, hlock, hinit', Bool.not_false, Bool.true_and]
     simp only [hl, Bool.false_eq_true, if_false] at h
     cases hpy : endsWith dotPy (fs.node n).name with
@@ -141,22 +133,16 @@ theorem accepts_isRevFile (fs : FS) (cfg : Cfg) (n : Nat) (h : accepts fs cfg n 
             simp [h]
           | false => simp [hpyo] at h
 
-/-- conversely, a revision file by the documented rules is imported by the model unless its
-    name starts with `__init__` (the look-ahead of the regexes; `isRevFile` already excludes
-    the module `__init__` itself) -/
-theorem isRevFile_accepts (fs : FS) (cfg : Cfg) (n : Nat) (h : isRevFile fs cfg n = true)
-    (hinit : cfg.initDot = true ∨ startsWith initPrefix (fs.node n).name = false) : accepts fs cfg n = true := by
+/-- conversely, every revision file by the documented rules is imported by the model -/
+theorem isRevFile_accepts (fs : FS) (cfg : Cfg) (n : Nat) (h : isRevFile fs cfg n = true) :
+    accepts fs cfg n = true := by
   unfold isRevFile at h
   unfold accepts matchRevFile lookaheadRejects
   simp only [Bool.and_eq_true, Bool.not_eq_true', Bool.or_eq_true] at h
   obtain ⟨⟨hlock, hmod⟩, hk⟩ := h
   unfold isLock at hlock
-  have hla : startsWith (if cfg.initDot = true then initPrefix ++ ['.'] else initPrefix) (fs.node n).name = false := by
-    rcases hinit with hd | hp
-    · rw [hd]; simp only [if_true]; unfold isInitModule at hmod; exact hmod
-    · cases hd : cfg.initDot with
-      | false => simp only [Bool.false_eq_true, if_false]; exact hp
-      | true => simp only [if_true]; unfold isInitModule at hmod; exact hmod
+  have hla : startsWith (initPrefix ++ ['.']) (fs.node n).name = false := by
+    unfold isInitModule at hmod; exact hmod
   simp only [hlock, hla, Bool.or_self, Bool.false_eq_true, if_false]
   cases hpy : endsWith dotPy (fs.node n).name with
   | true => simp
